@@ -25,7 +25,20 @@ SameAst(a, b) == LET ka == KindOfV(a) kb == KindOfV(b) IN
   ELSE IF ka = "atom" THEN ToString(a) = ToString(b)
   ELSE DOMAIN a = DOMAIN b /\ \A f \in DOMAIN a : SameAst(a[f], b[f])
 
+\* long chains: no reference tree is carried; the observed tree is judged by its in-order reading and the local
+\* characterisation of the grouping (PrecOps!LocallyGrouped)
+LongVerdict(r) ==
+  LET o == r.obs IN
+  IF Has(o, "panic") \/ Has(o, "harness_panic") THEN [ok |-> FALSE, class |-> "panic", sig |-> "parse"]
+  ELSE IF Has(o, "err") THEN [ok |-> FALSE, class |-> "rejected", sig |-> "long chain"]
+  ELSE IF FlatOps(o.tree) # r.ops THEN [ok |-> FALSE, class |-> "wrong-grouping", sig |-> "long chain: operators lost or reordered, " \o ToString(Len(FlatOps(o.tree))) \o " of " \o ToString(r.nops)]
+  ELSE IF ~LocallyGrouped(o.tree) THEN [ok |-> FALSE, class |-> "wrong-grouping", sig |-> "long chain"]
+  ELSE IF Has(o, "rerr") THEN [ok |-> FALSE, class |-> "reparse-rejected", sig |-> "long chain"]
+  ELSE IF FlatOps(o.reparse) = r.ops /\ LocallyGrouped(o.reparse) THEN [ok |-> TRUE, class |-> "ok", sig |-> ""]
+  ELSE [ok |-> FALSE, class |-> "reparse-regroup", sig |-> "long chain"]
+
 Verdict(r) ==
+  IF Has(r, "long") THEN LongVerdict(r) ELSE
   LET o == r.obs IN
   IF Has(o, "panic") \/ Has(o, "harness_panic") THEN [ok |-> FALSE, class |-> "panic", sig |-> "parse"]
   ELSE IF Has(o, "err") THEN [ok |-> FALSE, class |-> "rejected", sig |-> ""]
@@ -41,7 +54,7 @@ Verdict(r) ==
 RECURSIVE Levels(_)
 Levels(t) == IF t.k = "BinaryExpr" THEN {Prec(t.Op)} \cup Levels(t.LHS) \cup Levels(t.RHS)
              ELSE IF t.k = "ParenExpr" THEN Levels(t.Expr) ELSE {}
-NonTrivial(r) == r.special > 0 \/ (r.nops >= 2 /\ \E a, b \in Levels(r.want) : a # b)
+NonTrivial(r) == IF Has(r, "long") THEN r.nops >= 2 ELSE r.special > 0 \/ (r.nops >= 2 /\ \E a, b \in Levels(r.want) : a # b)
 
 Init == l = 1 /\ nt = 0
 Step == /\ l <= Len(Trace)
